@@ -4,8 +4,8 @@
      casbin/fast_enforcer.py       FastEnforcer.enforce
    and of the generic rule-store code of casbin/model/policy.py running ON that container (the
    container protocol: `in`, append, remove, iteration, len, index, item assignment).
-   Mirrors the code AFTER the repairs recorded for C19 (c1bddbe, c54ee53, and
-   fixes/C19-contains-short-rule.diff).  No proofs here.
+   Mirrors the code AFTER the repairs recorded for C19 (c1bddbe, c54ee53, 9f401c2 and
+   fixes/C19-short-request-falls-back.diff).  No proofs here.
 
    The index has exactly two levels (FastPolicy.__get_policy hard-codes `for v in cache.values()
    for v1 in v.values() for v2 in v1`): cache_key_order = [k0; k1].  A Python dict is an
@@ -267,19 +267,23 @@ Section Order.
   (* FastModel.clear_policy (32-35): a brand-new container with the same key order *)
   Definition fm_clear (_ : fpol) : fpol := fp_new.
 
-  (* ---------- FastEnforcer.enforce (fast_enforcer.py:37-48) ---------- *)
-  (* keys = [rvals[x] for x in order] is evaluated BEFORE anything else (IndexError on a short request,
-     even when enforcement is disabled); then the ordinary decision procedure runs over the filtered
-     iteration.  [s] supplies what the matcher reads besides the rule (role links, enabled flag). *)
+  (* ---------- FastEnforcer.enforce (fast_enforcer.py:37-48, repaired) ---------- *)
+  (* `if self._cache_key_order is None or any(x >= len(rvals) for x in order)`: a request that does not
+     reach a cache-key position takes the ordinary path (no filter; the enabled / request-size checks
+     of enforce_ex answer).  Otherwise keys = [rvals[x] for x in order] and the ordinary decision
+     procedure runs over the filtered iteration.  [s] supplies what the matcher reads besides the
+     rule (role links, enabled flag). *)
   Definition fe_enforce (k : mkind) (s : mstate) (p : fpol) (req : rule) : fpol * result bool :=
+    let c := {| enabled := m_enabled s; arity_ok := Nat.eqb (length req) (r_arity k) |} in
+    let em := rule_matches k s req (empty_rule k) in
     match nth_error req k0, nth_error req k1 with
     | Some a, Some b =>
         fp_with_filter p a b (fun p1 =>
-          let c := {| enabled := m_enabled s; arity_ok := Nat.eqb (length req) (r_arity k) |} in
           let outs := map (rule_outcome k s req) (fp_iter p1) in
-          let em := rule_matches k s req (empty_rule k) in
           (p1, enforce (intermediate_ref (k_eff k)) (final_ref (k_eff k)) eff_bool c outs em))
-    | _, _ => (p, Err EIndex)
+    | _, _ =>
+        (p, enforce (intermediate_ref (k_eff k)) (final_ref (k_eff k)) eff_bool c
+                    (map (rule_outcome k s req) (fp_iter p)) em)
     end.
 
   (* the plain enforcer holding the rules [l] (Mgmt.enforce_ex_m, decision only) *)
